@@ -593,6 +593,16 @@ class Runner(object):
             it = self.ev(g.iter, env, fi, cls)
             self.iterate(it, g.iter)
             env2 = dict(env)
+            if it.tag == "valid_types.items" and isinstance(g.target, ast.Tuple) and len(g.target.elts) == 2 and all(isinstance(t_, ast.Name) for t_ in g.target.elts) and not g.ifs:
+                # {f(name): data_type for name, data_type in self.valid_types.items()}: the declared table under re-spelled names -
+                # still text keys and type values (a lookup in it behaves like a lookup in the table)
+                env2[g.target.elts[0].id] = V({"str"})
+                env2[g.target.elts[1].id] = V({"type"})
+                kv = self.ev(e.key, env2, fi, cls)
+                vv = self.ev(e.value, env2, fi, cls)
+                if kv.kinds <= {"str"} and isinstance(e.value, ast.Name) and e.value.id == g.target.elts[1].id:
+                    return V({"dict1"}, tag="valid_types")
+                return V({"dict1"})
             empty = it.kinds <= EMPTY or it.tag == "items-of-empty"
             if not empty:
                 self.store(g.target, self.element_of(it), env2, fi, cls, e)
@@ -813,6 +823,8 @@ class Runner(object):
             return V({"int"})
         if name == "split":
             return V({"list1"})
+        if name == "items" and recv.tag == "valid_types":
+            return V({"iter"}, tag="valid_types.items")
         if name == "items":
             return V({"iter"}, tag="items-of-empty" if (mv.tag == "items-of-empty") else "items", derived=recv.derived)
         if name in ("keys", "values"):
